@@ -4,8 +4,10 @@
    What is modelled, piece by piece, with the SAME separate pieces the code keeps:
      st  : id -> MeshSilence                  (Silences.st, type state)
      mi  : id -> compiled matcher sets        (Silences.mi, matcherIndex; written ONLY by indexSilence/loadSnapshot)
-     vi  : ordered list of (version, id)      (Silences.vi, versionIndex; appended ONLY by indexSilence/loadSnapshot)
-     ver : the version counter                (Silences.version; bumped ONLY by indexSilence/loadSnapshot)
+     vi  : ordered list of (version, id)      (Silences.vi, versionIndex; appended by indexSilence/loadSnapshot, and by
+                                               reindexSilence when a MERGE replaces a known id: entry moved to the tail)
+     ver : the version counter                (Silences.version; bumped by indexSilence/loadSnapshot/reindexSilence)
+   A Set / Expire that replaces the stored version of an id leaves mi, vi, ver untouched (setSilence indexes only new ids).
    state.merge, setSilence, indexSilence, Set, canUpdate, expire/Expire, GC, Query (QIDs/QSince/QState/QMatches,
    filters applied in parameter order), Merge (decodeState: last record per id wins; `added` vs `changed`),
    loadSnapshot (snapshot reload into a NEW Silences object), checkSizeLimits / MaxSilences, validateSilence,
@@ -137,6 +139,19 @@ Definition index_silence (x : ext) (S : store) (s : silence) : store :=
   mkStore (st S)
           (if compiles x (s_ms s) then <[s_id s := s_ms s]> (mi S) else mi S)
           (vi S ++ [(ver S + 1, s_id s)])
+          (ver S + 1).
+
+(* reindexSilence (repo fix ca83c00, DESIGN F1): the id gets the next version and moves to the tail of the version
+   index; an id that is not in the index (its matchers did not compile on snapshot load) only bumps the version *)
+Fixpoint vi_remove (id : string) (l : list (Z * string)) : option (list (Z * string)) :=
+  match l with
+  | [] => None
+  | sv :: r => if String.eqb (snd sv) id then Some r
+               else match vi_remove id r with Some r' => Some (sv :: r') | None => None end
+  end.
+Definition reindex_silence (S : store) (id : string) : store :=
+  mkStore (st S) (mi S)
+          (match vi_remove id (vi S) with Some l => l ++ [(ver S + 1, id)] | None => vi S end)
           (ver S + 1).
 
 (* setSilence: None = marshalling failed (nothing done); otherwise the new store, changed, added.
@@ -383,7 +398,8 @@ Definition merge_one (x : ext) (now : Z) (oversized : bool) (acc : store * nat) 
   let '(T, n) := acc in
   let '(s', merged, added) := st_merge now (st T) e in
   let S1 := with_st T s' in
-  if merged then (if added then index_silence x S1 (m_sil e) else S1, if oversized then n else S n)
+  if merged then (if added then index_silence x S1 (m_sil e) else reindex_silence S1 (m_id e),
+                  if oversized then n else S n)
   else (S1, n).
 
 Definition oversized (blen : Z) : bool := MaxGossipPacketSize / 2 <? blen.
